@@ -131,7 +131,8 @@ def run_one_path(job, prefix):
             rec['funcs'] = tuple(eng.functions_entered)
         checks = chk if isinstance(chk, list) else [chk]
         hx = _stable_hash('x|%s|%s|%d' % (job.name, prefix, G['seed']))
-        want_x = (hx % 100000) < G.get('xcheck_rate', 0.0) * 100000
+        # a seeded sample of paths, plus the first path of every job (so small checks are cross-checked too)
+        want_x = G.get('xcheck_rate', 0.0) > 0 and ((hx % 100000) < G['xcheck_rate'] * 100000 or not prefix)
         for c in checks:
             bad = z3.Not(to_z3bool(c.ok)) if not isinstance(c.ok, bool) else (not c.ok)
             viol = False
